@@ -69,10 +69,11 @@ func pvcNames(cli *fake.Clientset) []string {
 }
 
 type scaleCase struct {
-	Old       int  `json:"old"`
-	New       int  `json:"new"`
-	Templates int  `json:"templates"`
-	Delete    bool `json:"delete"`
+	Old        int  `json:"old"`
+	New        int  `json:"new"`
+	Templates  int  `json:"templates"`
+	Delete     bool `json:"delete"`
+	UpdateFail bool `json:"updateFail,omitempty"` // the API server rejects the StatefulSet update (conflict)
 }
 
 func recC18() *vkit.Recorder {
@@ -125,8 +126,28 @@ func runScale(c scaleCase) []vkit.Violation {
 		add("C18/replicas-listing", "no manager lists the pods of the StatefulSet under test")
 		return vs
 	}
+	if c.UpdateFail {
+		cli.PrependReactor("update", "statefulsets", func(a k8stesting.Action) (bool, runtime.Object, error) {
+			return true, nil, fmt.Errorf("Operation cannot be fulfilled on statefulsets.apps \"set\": the object has been modified")
+		})
+	}
 	cli.ClearActions()
-	if err := man.ChangeScale(int32(c.New)); err != nil {
+	err = man.ChangeScale(int32(c.New))
+	if c.UpdateFail {
+		// the scale did not change: every shard is still there, so no claim may be gone
+		set, _ := cli.AppsV1().StatefulSets(ns).Get(context.TODO(), "set", metav1.GetOptions{})
+		if set.Spec.Replicas == nil || int(*set.Spec.Replicas) != c.Old {
+			add("C18/harness", "update was rejected but replicas changed")
+		}
+		if got := pvcNames(cli); strings.Join(got, ",") != strings.Join(before, ",") {
+			add("C18/claim-deleted-although-scale-failed", "old=%d new=%d: the StatefulSet update was rejected (replicas still %d) but claims were deleted: %d of %d left", c.Old, c.New, c.Old, len(got), len(before))
+		}
+		if err == nil && c.Old != c.New {
+			add("C18/scale-failure-not-reported", "the StatefulSet update was rejected but ChangeScale returned no error")
+		}
+		return vs
+	}
+	if err != nil {
 		add("C18/change-scale-error", "ChangeScale(%d) from %d: %v", c.New, c.Old, err)
 		return vs
 	}
@@ -199,23 +220,32 @@ func TestC18Grid(t *testing.T) {
 		for nw := 0; nw <= max; nw++ {
 			for tm := 0; tm <= 2; tm++ {
 				for _, del := range []bool{false, true} {
-					c := scaleCase{old, nw, tm, del}
-					vs := rec.Filter(runScale(c))
-					rec.Eval(old != nw && tm >= 1, vkit.Digest("grid", old, nw, tm, del), "grid")
-					n++
-					if old != nw && tm >= 1 && del && rec.WantSample() {
-						rec.Sample(c)
-					}
-					if len(vs) > 0 {
-						p := vkit.SaveViolation("C18", "TestC18Grid", c, vs, nil)
-						t.Fatalf("%s (replay %s)", vs[0], p)
+					for _, uf := range []bool{false, true} {
+						if uf && old == nw {
+							continue
+						}
+						c := scaleCase{old, nw, tm, del, uf}
+						vs := rec.Filter(runScale(c))
+						cl := "grid"
+						if uf {
+							cl = "grid-update-rejected"
+						}
+						rec.Eval(old != nw && tm >= 1, vkit.Digest("grid", old, nw, tm, del, uf), cl)
+						n++
+						if old != nw && tm >= 1 && del && rec.WantSample() {
+							rec.Sample(c)
+						}
+						if len(vs) > 0 {
+							p := vkit.SaveViolation("C18", "TestC18Grid", c, vs, nil)
+							t.Fatalf("%s (replay %s)", vs[0], p)
+						}
 					}
 				}
 			}
 		}
 	}
 	rec.Extra("grid_cases", n)
-	rec.Extra("grid", fmt.Sprintf("old 0..%d x new 0..%d x templates 0..2 x delete flag, complete", max, max))
+	rec.Extra("grid", fmt.Sprintf("old 0..%d x new 0..%d x templates 0..2 x delete flag x (update accepted | update rejected by the API server), complete", max, max))
 	rec.Exhaustive(true)
 }
 
@@ -334,7 +364,7 @@ func runList(c *listCase) []vkit.Violation {
 func TestC18List(t *testing.T) {
 	rec := recC18()
 	rapid.Check(t, func(t *rapid.T) {
-		c := &listCase{Replicas: rapid.IntRange(0, 7).Draw(t, "replicas")}
+		c := &listCase{Replicas: rapid.SampledFrom([]int{0, 1, 2, 3, 5, 7, 10, 11, 12, 15, 23, 101}).Draw(t, "replicas")}
 		k := rapid.IntRange(0, c.Replicas).Draw(t, "pods")
 		ords := make([]int, k)
 		for i := range ords {
